@@ -454,6 +454,23 @@ def behaviour(x):
                                        f"{again.protocol_version!r}, a fresh node gets {fresh.protocol_version!r}")
     except Exception as exc:  # noqa: BLE001
         out["node_history"] = "raised " + type(exc).__name__
+    # the version a node presents reaches the node object whichever of the two node types it presents as
+    # (an ordinary node, sub-type 17, or a repeater, sub-type 18)
+    if isinstance(x, str) and x and ";" not in x and "\n" not in x and x == x.strip():
+        try:
+            seen = {}
+            for nid, ptype in ((3, 17), (4, 18)):
+                gw.logic(f"{nid};255;0;0;{ptype};{x}\n")
+                seen[ptype] = gw.sensors[nid].protocol_version if nid in gw.sensors else "not registered"
+            fresh = Sensor(1)
+            fresh.protocol_version = x
+            registered = {v for v in seen.values() if v != "not registered"}
+            if len(set(seen.values())) != 1 or (registered and registered != {fresh.protocol_version}):
+                out["presented_version"] = (f"node presenting as type 17 / 18 with this version is recorded as "
+                                            f"{seen[17]!r} / {seen[18]!r} (a node object given the value: "
+                                            f"{fresh.protocol_version!r})")
+        except Exception as exc:  # noqa: BLE001
+            out["presented_version"] = "raised " + type(exc).__name__
     try:
         node = Sensor(1)
         node.protocol_version = x
@@ -772,7 +789,7 @@ def judge_replay(r, tmp, verbose=False):
         bad = mqtt_retain_probe(r["class"], r["retain"], r.get("pin", "px/in"), r.get("pout", "px/out"))
         return [bad] if bad else []
     if op == "effect":
-        bad = effect_probe(r["class"], r["callback"], r["ext"], tmp)
+        bad = effect_probe(r["class"], r["callback"], r["ext"], tmp, r.get("spelling", "absolute"))
         return [bad] if bad else []
     if op == "readme":
         res = Result()
@@ -800,12 +817,25 @@ def run_corpus(res, tmp):
         res.count("corpus:replayed")
 
 
-def effect_probe(name, with_callback, ext, tmp):
+def effect_probe(name, with_callback, ext, tmp, spelling="absolute"):
     """Options honoured by effect, not only stored: with persistence on, what the nodes report is in the
     file after the next save whether or not an event callback is configured; a configured callback sees
-    every accepted message.  Returns a failure text or None."""
+    every accepted message.  The file is named as an absolute path, as a bare file name in the working
+    directory (what the documented default `mysensors.pickle` is) or relative with a directory part.
+    Returns a failure text or None."""
+    cwd = os.getcwd()
+    os.makedirs(os.path.join(tmp, "sub"), exist_ok=True)
+    os.chdir(tmp)
+    try:
+        return _effect_probe(name, with_callback, ext, tmp, spelling)
+    finally:
+        os.chdir(cwd)
+
+
+def _effect_probe(name, with_callback, ext, tmp, spelling):
     events = []
-    path = os.path.join(tmp, f"effect-{name}-{int(with_callback)}.{ext}")
+    base = f"effect-{name}-{int(with_callback)}.{ext}"
+    path = {"absolute": os.path.join(tmp, base), "bare": base, "relative": os.path.join("sub", base)}[spelling]
     for leftover in (path, path + ".bak"):
         if os.path.exists(leftover):
             os.remove(leftover)
@@ -835,7 +865,7 @@ def effect_probe(name, with_callback, ext, tmp):
     except Exception as exc:  # noqa: BLE001
         return f"{name} ({'with' if with_callback else 'without'} event_callback, .{ext}): probe raised {type(exc).__name__}: {exc}"
     if got != "21.5":
-        return (f"{name} with persistence=True and {'an' if with_callback else 'no'} event_callback (.{ext}): a value "
+        return (f"{name} with persistence=True, persistence_file={path!r} and {'an' if with_callback else 'no'} event_callback: a value "
                 f"reported after the first save is not in the file after the next save (restored {got!r})")
     if with_callback and len(events) != 3:
         return f"{name}: the configured event_callback saw {len(events)} of 3 accepted messages"
@@ -1078,11 +1108,13 @@ def run_effects(res, tmp):
                 res.count("effect-probes")
                 res.evaluations += 1
                 res.distinct.add(digest(["effect", name, with_callback, ext]))
-                bad = effect_probe(name, with_callback, ext, tmp)
+                spelling = ["absolute", "bare", "relative"][(len(name) + with_callback + len(ext)) % 3]
+                bad = effect_probe(name, with_callback, ext, tmp, spelling)
                 if bad:
                     res.oracle_failures.append({
                         "key": {"kind": "option-without-effect", "class": name, "callback": with_callback},
-                        "what": bad, "replay": {"op": "effect", "class": name, "callback": with_callback, "ext": ext}})
+                        "what": bad, "replay": {"op": "effect", "class": name, "callback": with_callback, "ext": ext,
+                                                "spelling": spelling}})
 
 
 def run(tier, seed, driver):
